@@ -12,6 +12,7 @@ Local, loop-free, single-path callees found in the function table are inlined (t
 stores and calls appear in the caller's effect list with depth+1), which is what makes
 accessor calls (`self.len()`), field reads and helper extraction indistinguishable.
 """
+import re
 from . import cfg as cfgmod
 from .cfg import Cfg, callee_path
 
@@ -273,6 +274,20 @@ def is_mut_ptr_ty(ty):
     return ty.startswith("&mut ") or ty.startswith("*mut ") or ty.startswith("&'") and " mut " in ty.split(" ", 2)[1:2]
 
 
+_FAM_RX = None
+
+
+def fam_name(path):
+    """family name of a function: generics dropped, StorageN / BorrowN / IterN and _<i> suffixes folded"""
+    global _FAM_RX
+    import re
+    from .facts import strip_generics
+    p = strip_generics(path)
+    p = re.sub(r"\b(Storage|Borrow|IterMut|Iter|Components|View|Slices)\d+\b", r"\1N", p)
+    p = re.sub(r"_(\d+)(::|$)", r"_I\2", p)
+    return p
+
+
 class Executor:
     def __init__(self, table, debug="skip", inline=True, max_paths=MAX_PATHS):
         self.table = table
@@ -283,6 +298,10 @@ class Executor:
         self._inlinable = {}
         self._frame = 0
         self.watch = ()  # locations whose current value is snapshotted at every call effect
+        # helper functions the rules do not know by name (not in this set of family names) are seen through even
+        # when they branch: each of their returning paths continues the caller (None = feature off)
+        self.known_fns = None
+        self._multi = {}
 
     def cfg(self, fn):
         c = self._cfgs.get(fn.key)
@@ -312,6 +331,31 @@ class Executor:
                     ok = False
                     break
         self._inlinable[fn.key] = ok
+        return ok
+
+    def multi_ok(self, fn):
+        """a small loop-free local function that branches, and that no rule addresses by name: inline it path by path"""
+        if self.known_fns is None:
+            return False
+        r = self._multi.get(fn.key)
+        if r is not None:
+            return r
+        ok = False
+        if fn.kind in ("Fn", "AssocFn") and fam_name(fn.path) not in self.known_fns:
+            c = self.cfg(fn)
+            if not c.backedges() and len(fn.blocks) <= 60:
+                nsw = 0
+                bad = False
+                for b in c.reach:
+                    if b in c.doomed:
+                        continue
+                    live = [s_ for s_ in c.succ[b] if s_ not in c.doomed]
+                    if len(set(live)) > 1:
+                        nsw += 1
+                    if fn.blocks[b]["t"]["k"] in ("other", "tailcall"):
+                        bad = True
+                ok = (not bad) and 1 <= nsw <= 3
+        self._multi[fn.key] = ok
         return ok
 
     # ------------------------------------------------------------------ evaluation
@@ -493,11 +537,11 @@ class Executor:
                 self._finish(st, "return", ret, out)
                 return
             elif k == "unreachable":
-                if cont is None:
+                if cont is None or getattr(cont, 'fork_ok', False):
                     self._finish(st, "unreachable", None, out)
                 return
             elif k in ("resume", "terminate"):
-                if cont is None:
+                if cont is None or getattr(cont, 'fork_ok', False):
                     self._finish(st, k, None, out)
                 return
             elif k == "drop":
@@ -516,11 +560,11 @@ class Executor:
                     return
             else:
                 st.effects.append(("other", t.get("dbg", k), None, depth, t.get("s"), fn.key))
-                if cont is None:
+                if cont is None or getattr(cont, 'fork_ok', False):
                     self._finish(st, ("other", k), None, out)
                 return
             if (bb, nxt) in backedges:
-                if cont is None:
+                if cont is None or getattr(cont, 'fork_ok', False):
                     self._finish(st, ("backedge", nxt), None, out)
                 return
             bb = nxt
@@ -688,7 +732,7 @@ class Executor:
                 elif V[1] in vals:
                     return tgt
         if not live:
-            if cont is None:
+            if cont is None or getattr(cont, 'fork_ok', False):
                 self._finish(st, "unreachable", None, out)
             return None
         kind = "assume" if dead else "branch"
@@ -697,7 +741,7 @@ class Executor:
             if dead or len(entries) > 1:
                 st.conds.append((V, vals, kind, t["s"], len(st.effects)))
             return tgt
-        if cont is not None:
+        if cont is not None and not getattr(cont, "fork_ok", False):
             raise TooManyPaths("fork inside inlined frame: " + fn.key)
         for i, (tgt, vals) in enumerate(live):
             s2 = st.clone() if i < len(live) - 1 else st
@@ -720,7 +764,7 @@ class Executor:
         dest = self.place_loc(st, fid, t["d"])
         desc = callee.path if (callee is not None and isinstance(f.get("from_impl"), dict) and self.table.lookup(f) is None) else describe_callee(f)
         if path in cfgmod.UNREACHABLE_FNS:
-            if cont is None:
+            if cont is None or getattr(cont, 'fork_ok', False):
                 self._finish(st, "unreachable", None, out)
             return None
         # `?` on a known Ok/Some/Err/None aggregate: Try::branch / from_residual are modelled exactly
@@ -752,8 +796,57 @@ class Executor:
         st.effects.append(("call", ev, desc, tuple(args), depth, t["s"], fn.key, bool(do_inline), f, snapw))
         if t.get("t") is None:
             # diverging call
-            if cont is None:
+            if cont is None or getattr(cont, 'fork_ok', False):
                 self._finish(st, ("diverge", desc), None, out)
+            return None
+        if self.known_fns is not None and path is not None and t.get("t") is not None and (cont is None or getattr(cont, "fork_ok", False)) and len(args) == 2 \
+                and re.search(r"num::<impl (usize|u32|u64|u16|u8)>::checked_sub$", path):
+            # x.checked_sub(y) on unsigned integers, modelled exactly: None iff x < y, else Some(x - y)
+            st.effects.append(("call", ev, desc, tuple(args), depth, t["s"], fn.key, True, f, ()))
+            a_, b_ = args
+            sub = path.endswith("checked_sub")
+            backedges_ = c.backedges()
+            opt = "std::option::Option"
+            for none_case in (True, False):
+                s2 = st.clone() if none_case else st
+                if sub:
+                    s2.conds.append((("bin", "Lt", a_, b_), (1,) if none_case else (0,), "branch", t["s"], len(s2.effects)))
+                    val = ("bin", "Sub", a_, b_)
+                else:
+                    continue
+                model_ = ("agg", "adt", opt, "None", (), 0) if none_case else ("agg", "adt", opt, "Some", (("0", val),), 1)
+                s2.effects.append(("ret", ev, desc, model_, depth))
+                s2.write(dest, model_)
+                if (bb, t["t"]) in backedges_:
+                    if cont is None or getattr(cont, "fork_ok", False):
+                        self._finish(s2, ("backedge", t["t"]), None, out)
+                    continue
+                self._exec(fn, fid, t["t"], s2, depth, out, cont)
+            return None
+        if (not do_inline) and self.inline and callee is not None and depth < 3 and t.get("t") is not None and (cont is None or getattr(cont, "fork_ok", False)) and self.multi_ok(callee):
+            # branching helper unknown to the rules: every returning path of the helper continues this caller
+            st.effects[-1] = st.effects[-1][:7] + (True,) + st.effects[-1][8:]
+            self._frame += 1
+            nf = self._frame
+            for i, a in enumerate(args):
+                st.store[("local", nf, i + 1)] = a
+            backedges_ = c.backedges()
+
+            def k_multi(st2, ret, nf=nf):
+                for kk in [kk for kk in st2.store if kk[0] == "local" and kk[1] == nf]:
+                    del st2.store[kk]
+                st2.effects.append(("ret", ev, desc, ret, depth))
+                st2.write(dest, ret)
+                if dest[0] != "local":
+                    st2.effects.append(("store", canon_loc(dest), ret, depth, t["s"], fn.key))
+                if (bb, t["t"]) in backedges_:
+                    if cont is None or getattr(cont, 'fork_ok', False):
+                        self._finish(st2, ("backedge", t["t"]), None, out)
+                    return
+                self._exec(fn, fid, t["t"], st2, depth, out, cont)
+
+            k_multi.fork_ok = True
+            self._exec(callee, nf, 0, st, depth + 1, out, k_multi)
             return None
         if do_inline:
             self._frame += 1
@@ -769,7 +862,7 @@ class Executor:
             self._exec(callee, nf, 0, st, depth + 1, out, k)
             if "ret" not in result:
                 # callee diverged/unreachable on its single path
-                if cont is None:
+                if cont is None or getattr(cont, 'fork_ok', False):
                     self._finish(st, ("diverge", desc), None, out)
                 return None
             ret = result["ret"]
